@@ -150,7 +150,8 @@ struct RegS { RegS(const char* n, ScenFn f) { Scen s = { n, f }; scenarios().pus
 #define FI_CAT2(a, b) a##b
 #define FI_CAT(a, b) FI_CAT2(a, b)
 // SCENARIO("C_Polyhedron.minimize") { ... uses `c` ... }
-#define SCENARIO(name) static void FI_CAT(fi_scen_, __LINE__)(fi::Ctx&); static fi::RegS FI_CAT(fi_regs_, __LINE__)(name, FI_CAT(fi_scen_, __LINE__)); static void FI_CAT(fi_scen_, __LINE__)(fi::Ctx& c)
+#define SCENARIO_N(name, N) static void FI_CAT(fi_scen_, N)(fi::Ctx&); static fi::RegS FI_CAT(fi_regs_, N)(name, FI_CAT(fi_scen_, N)); static void FI_CAT(fi_scen_, N)(fi::Ctx& c)
+#define SCENARIO(name) SCENARIO_N(name, __COUNTER__)
 
 // ------------------------------- rejected calls -------------------------------------
 struct RCtx {
@@ -210,7 +211,8 @@ typedef void (*RejFn)(RCtx&);
 struct Rej { const char* dom; const char* op; const char* cls; RejFn fn; };
 std::vector<Rej>& rejects();
 struct RegR { RegR(const char* d, const char* o, const char* c, RejFn f) { Rej r = { d, o, c, f }; rejects().push_back(r); } };
-#define REJECT(dom, op, cls) static void FI_CAT(fi_rej_, __LINE__)(fi::RCtx&); static fi::RegR FI_CAT(fi_regr_, __LINE__)(dom, op, cls, FI_CAT(fi_rej_, __LINE__)); static void FI_CAT(fi_rej_, __LINE__)(fi::RCtx& r)
+#define REJECT_N(dom, op, cls, N) static void FI_CAT(fi_rej_, N)(fi::RCtx&); static fi::RegR FI_CAT(fi_regr_, N)(dom, op, cls, FI_CAT(fi_rej_, N)); static void FI_CAT(fi_rej_, N)(fi::RCtx& r)
+#define REJECT(dom, op, cls) REJECT_N(dom, op, cls, __COUNTER__)
 
 // ------------------------------- argument generators --------------------------------
 inline Coefficient bigc(int k) { Coefficient c = 1; c <<= 70; c += k; return c; }
@@ -265,14 +267,16 @@ inline Generator_System rgs(int n, bool nnc, int m) {
   }
   return gs;
 }
+template <typename PH> struct Is_NNC { enum { value = 0 }; };
+template <> struct Is_NNC<NNC_Polyhedron> { enum { value = 1 }; };
 // A random polyhedron in one of several lazy states.
 template <typename PH> inline PH rpoly(int n, int m = -1) {
-  const bool nnc = PH(0).topology() == NOT_NECESSARILY_CLOSED;
+  const bool nnc = Is_NNC<PH>::value;
   if (m < 0) m = rnd(1, 5);
   int st = rnd(0, 9);
-  if (st == 0) { PH p(rgs(n, nnc, rnd(1, 4))); return p; }                       // generators only
+  if (st == 0) { PH p(n, EMPTY); p.add_generators(rgs(n, nnc, rnd(1, 4))); return p; }     // generators only
   std::vector<int> pt = rpoint(n);
-  PH p(rcs_through(n, pt, nnc, m));
+  PH p(n); p.add_constraints(rcs_through(n, pt, nnc, m));
   if (st == 1) { (void) p.minimized_generators(); }                               // both, minimized
   else if (st == 2) { (void) p.minimized_generators(); p.add_constraint(rcon_through(n, pt, nnc)); }   // pending constraint
   else if (st == 3) { (void) p.minimized_constraints(); p.add_generator(pplx::rand_gen(n, false, true)); } // pending generator
